@@ -53,6 +53,9 @@ def parseCapPairs (names : Array String) : List Nat → List (String × Nat)
   | c :: n :: rest => (names[c]?.getD "?", n) :: parseCapPairs names rest
   | _ => []
 
+/-- Does the query text contain an alternation or a `?`/`*` quantifier (parts that need not match)? -/
+def optionalParts (q : String) : Bool := q.toList.any fun c => c == '[' || c == '?' || c == '*'
+
 def runCase (s : St) : String :=
   let tail := s!"compiled={s.compiled.getD false} haserror={s.hasError}"
   match buildVT s.nodes.toList with
@@ -70,14 +73,16 @@ def runCase (s : St) : String :=
       | some true =>
         if !(impl.all fun x => model.contains x) then
           let bad := impl.filter fun x => !model.contains x
-          s!"{s.id} judge=FAIL unsound first={repr bad.head!} {info}"
+          let partialB := bad.all fun x => model.any fun y => y.1 == x.1 && subBag x.2 y.2
+          let kind := if partialB then "unsound-partial-binding" else "unsound"
+          s!"{s.id} judge=FAIL {kind} first={repr bad.head!} {info}"
         else if !quant && !soundB impl model then
           let bad := impl.filter fun x => countOf x impl > countOf x model
           s!"{s.id} judge=FAIL duplicate first={repr bad.head!} {info}"
         else if !quant && !completeB impl model then
           let bad := model.filter fun x => countOf x model > countOf x impl
           let subsumed := bad.all fun x => impl.any fun y => y.1 == x.1 && y != x && subBag x.2 y.2
-          let kind := if subsumed then "incomplete-subsumed" else "incomplete"
+          let kind := if subsumed then "incomplete-subsumed" else if (s.query.splitOn " . ").length > 1 then "incomplete-anchor" else "incomplete"
           s!"{s.id} judge=FAIL {kind} first={repr bad.head!} {info}"
         else s!"{s.id} judge=ok {info}"
       | _ =>
@@ -85,7 +90,7 @@ def runCase (s : St) : String :=
         let line := ((s.query.toList.take s.errOffset).filter (· == '\n')).length
         let modelHere := model.filter fun x => x.1 == line
         if s.errOffset > s.srcLen then s!"{s.id} judge=FAIL offset-outside-source {info}"
-        else if !s.hasError && !modelHere.isEmpty then s!"{s.id} judge=FAIL rejected-but-matches kind={s.errKind} pattern={line} {info}"
+        else if !s.hasError && !modelHere.isEmpty then s!"{s.id} judge=FAIL rejected-but-matches errkind={s.errKind} pattern={line} optional={optionalParts s.query} {info}"
         else s!"{s.id} judge=ok rejected={s.errKind} {info}"
 
 def step (s : St) (line : String) : IO St := do
